@@ -99,6 +99,7 @@ func planC12(tier string, root *simcore.RNG) *plan {
 		sites["write"] = 4
 		sites["eval.pre"] = 16
 		sites["mc.sent"] = 1
+		sites["worker.start"] = 1
 		return &Scenario{Prop: "C12", Family: "fault", Seed: r.Uint64(), Groups: [][]Job{{j}}, Sched: s, Sites: sites, Env: genEnv(r)}
 	}
 	faultPoints := 0
@@ -119,7 +120,7 @@ func planC12(tier string, root *simcore.RNG) *plan {
 			budgets = thinInt64(budgets, 2)
 		}
 		var faults []Fault
-		faults = append(faults, Fault{Kind: "nodir"}, Fault{Kind: "isdir"}, Fault{Kind: "devfull"})
+		faults = append(faults, Fault{Kind: "nodir"}, Fault{Kind: "isdir"}, Fault{Kind: "devfull"}, Fault{Kind: "vanish"})
 		for _, b := range budgets {
 			faults = append(faults, Fault{Kind: "fsize", Budget: b})
 		}
@@ -151,27 +152,32 @@ func planC12(tier string, root *simcore.RNG) *plan {
 				reps = 50
 			}
 		}
-		block := []Job{}
-		nblock := 2 + r.Intn(3)
-		for b := 0; b < nblock; b++ {
-			switch r.Intn(5) {
-			case 0, 1:
-				block = append(block, Job{Kind: "mcu", Sink: pick(r, []string{"tri", "stl", "3mf"}), Model: pick(r, model3Names), Cells: 5 + r.Intn(4)})
-			case 2:
-				block = append(block, Job{Kind: "mco", Sink: pick(r, []string{"tri", "stl"}), Model: pick(r, model3Names), Cells: 6 + r.Intn(6)})
-			case 3:
-				block = append(block, Job{Kind: pick(r, []string{"msu", "msq", "dc2"}), Sink: pick(r, []string{"dxf", "svg"}), Model: pick(r, model2Names), Cells: 10 + r.Intn(10)})
-			default:
-				n := 300 + r.Intn(900)
-				j := Job{Kind: "script3", Sink: "stl", N: n, Batches: genPartition(r, n, 1, "fives"), Coords: "index"}
-				if r.Intn(2) == 0 {
-					j.Fault = Fault{Kind: pick(r, []string{"nodir", "devfull"})}
-				}
-				block = append(block, j)
-			}
+		// every history covers every sink and both renderer families; the order
+		// and the models are seeded
+		block := []Job{
+			{Kind: "mcu", Sink: pick(r, []string{"tri", "stl", "3mf"}), Model: pick(r, model3Names), Cells: 5 + r.Intn(3)},
+			{Kind: pick(r, []string{"msu", "msq", "dc2"}), Sink: "dxf", Model: pick(r, model2Names), Cells: 10 + r.Intn(10)},
+			{Kind: pick(r, []string{"msu", "msq", "dc2"}), Sink: "svg", Model: pick(r, model2Names), Cells: 10 + r.Intn(10)},
+			{Kind: "mco", Sink: pick(r, []string{"stl", "3mf", "tri"}), Model: pick(r, model3Names), Cells: 6 + r.Intn(6)},
 		}
-		// make sure a uniform render is in every history
-		block[0] = Job{Kind: "mcu", Sink: "tri", Model: pick(r, model3Names), Cells: 5 + r.Intn(3)}
+		{
+			n := 300 + r.Intn(900)
+			j := Job{Kind: "script3", Sink: pick(r, []string{"stl", "3mf"}), N: n, Batches: genPartition(r, n, 1, "fives"), Coords: "index"}
+			j.Fault = Fault{Kind: pick(r, []string{"", "nodir", "devfull", "isdir"})}
+			block = append(block, j)
+			n2 := 100 + r.Intn(400)
+			j2 := Job{Kind: "script2", Sink: pick(r, []string{"dxf", "svg"}), N: n2, Batches: genPartition(r, n2, 1, "fives"), Coords: "index"}
+			j2.Fault = Fault{Kind: pick(r, []string{"", "nodir", "devfull", "isdir"})}
+			block = append(block, j2)
+		}
+		for i := len(block) - 1; i > 0; i-- { // seeded order
+			k := r.Intn(i + 1)
+			block[i], block[k] = block[k], block[i]
+		}
+		if h%2 == 1 { // shorter histories too
+			block = block[:2+r.Intn(3)]
+			block[0] = Job{Kind: "mcu", Sink: "tri", Model: pick(r, model3Names), Cells: 5 + r.Intn(3)}
+		}
 		sc := &Scenario{Prop: "C12", Family: "census", Seed: r.Uint64(), Census: true, Env: genEnv(r),
 			Sched: Sched{Policy: pick(r, []string{"fifo", "uniform"}), Seed: r.Uint64()},
 			Sites: map[string]uint32{"close": 1, "write": 64, "prod": 16}, Note: fmt.Sprintf("period=%d reps=%d", len(block), reps)}
@@ -186,7 +192,7 @@ func planC12(tier string, root *simcore.RNG) *plan {
 		pl.scenarios = append(pl.scenarios, sc)
 	}
 	pl.extra = map[string]any{"fault_points_enumerated": faultPoints, "render_histories": histories}
-	pl.rule = "part 1: for every render-to-file entry (ToSTL/To3MF/ToDXF/ToSVG) x renderer (scripted; uniform and octree marching cubes; uniform/quadtree marching squares; 2D dual contouring) x fault (create fails: missing directory, path is a directory; /dev/full; RLIMIT_FSIZE budget n for every 4096-byte flush index +-1 byte, the header offsets 0/1/83/84/85, size-1/-84/-85, and the unreached control budget; thorough adds every byte offset for small files) x schedule (fifo, uniform, starve(consumer), starve(renderer)); oracle = the call returns (simulator deadlock verdict otherwise). part 2: histories that repeat a block of renders R>=4 times; oracle = goroutine count at quiescence after repetition R <= after repetition 2. Non-trivial = the injected fault actually fired (or, for census episodes, a uniform render ran); distinct = (entry, fault kind, budget, policy)."
+	pl.rule = "part 1: for every render-to-file entry (ToSTL/To3MF/ToDXF/ToSVG) x renderer (scripted; uniform and octree marching cubes; uniform/quadtree marching squares; 2D dual contouring) x fault (create fails: missing directory, path is a directory; /dev/full; the file is unlinked right after it was created; RLIMIT_FSIZE budget n for every 4096-byte flush index +-1 byte, the header offsets 0/1/83/84/85, size-1/-84/-85, and the unreached control budget; thorough adds every byte offset for small files) x schedule (fifo, uniform, starve(consumer), starve(renderer)); oracle = the call returns (simulator deadlock verdict otherwise). part 2: histories that repeat a block of renders R>=4 times; oracle = goroutine count at quiescence after repetition R <= after repetition 2. Non-trivial = the injected fault actually fired (or, for census episodes, a uniform render ran); distinct = (entry, fault kind, budget, policy)."
 	pl.nontriv = func(o *runOut) (bool, string) {
 		if o.res == nil {
 			return false, ""
